@@ -25,6 +25,12 @@ CLASSES = {
     "update-of-deactivated-subject": dict(
         site="update-of-deactivated-subject",
         kinds={"success-but-unpublished", "unpublished-version-after-sweep"}),
+    # concurrent requests: the first transaction of a request ran while another request on the same subject was between
+    # its first and its clean-up transaction (no mutual exclusion per subject)
+    "concurrent-requests-interleave": dict(
+        site="concurrent-request-on-pending-change",
+        kinds={"success-but-unpublished", "unpublished-version-after-sweep", "version-gap", "abandoned-key-published",
+               "abandoned-but-published"}),
 }
 
 
@@ -38,28 +44,60 @@ def classify(v):
 
 
 def to_steps(hist):
-    """Projects a TLC behaviour (sequence of action records) to the environment script of the driver."""
-    steps, cur = [], None
+    """Projects a TLC behaviour (sequence of action records) to the environment script of the driver.
+    A busy period with one request becomes a sequential "op" step (fault script: network answer, stop position, method
+    order); a busy period in which requests overlap becomes a "conc" step: the requests per goroutine and the schedule
+    (one entry per critical section, in the order of the behaviour)."""
+    steps = []
+    group = None      # current busy period: dict(ops=[...], sched=[...], active={p: op}, single=<seq step or None>)
+
+    def close():
+        nonlocal group
+        if group is None:
+            return
+        if len(group["ops"]) == 1 and group["stop"] is not None or len(group["ops"]) == 1:
+            o = group["ops"][0]
+            steps.append(dict(a="op", op=o["op"], s=o["s"], net=o["net"], stop=group["stop"] if group["stop"] is not None else -1,
+                              order=o["order"]))
+        else:
+            steps.append(dict(a="conc", stop=-1, sched=group["sched"],
+                              ops=[dict(p=o["p"], op=o["op"], s=o["s"], net=o["net"]) for o in group["ops"]]))
+        group = None
+
     for h in hist:
         a = h["a"]
-        if a == "Tx1":
-            cur = dict(a="op", op=h["op"], s=h["s"], net="ok", stop=-1, order=[])
-            steps.append(cur)
-            if h["out"] != "changed":
-                cur = None
+        p = h.get("p", "p1")
+        if a in ("Tx1", "Check"):
+            if group is None:
+                group = dict(ops=[], sched=[], active={}, stop=None)
+            if p not in group["active"]:
+                o = dict(p=p, op=h["op"], s=h["s"], net="ok", order=[])
+                group["ops"].append(o)
+                group["active"][p] = o
+            group["sched"].append(p)
+            if a == "Tx1" and h["out"] != "changed":
+                del group["active"][p]
         elif a == "Commit":
-            cur["order"].append(h["m"])
+            o = group["active"][p]
+            o["order"].append(h["m"])
             if h["m"] == "nuts" and h.get("inj"):
-                cur["net"] = "fail"
-        elif a == "Stop":
-            cur["stop"] = h["after"]
-            cur = None
+                o["net"] = "fail"
+            group["sched"].append(p)
         elif a == "Tx2":
-            cur = None
+            group["sched"].append(p)
+            del group["active"][p]
+        elif a == "Stop":
+            group["stop"] = h["after"]
+            group["active"] = {}
         elif a == "Tick":
+            close()
             steps.append(dict(a="tick", stop=-1))
         elif a == "Sweep":
+            close()
             steps.append(dict(a="sweep", stop=-1))
+        if group is not None and not group["active"]:
+            close()
+    close()
     # the tail (forced Tick, forced Sweep, repetitions): operations after the last sweep that follows the last tick
     last_sweep = max([i for i, s in enumerate(steps) if s["a"] == "sweep"], default=None)
     if last_sweep is not None:
@@ -73,15 +111,65 @@ def to_steps(hist):
     return steps
 
 
+def canonical(hist):
+    """Renames the request goroutines in order of appearance (p1/p2 are symmetric)."""
+    ren = {}
+    out = []
+    for h in hist:
+        if "p" in h:
+            ren.setdefault(h["p"], "p%d" % (len(ren) + 1))
+            h = dict(h, p=ren[h["p"]])
+        out.append(h)
+    return out
+
+
 def shape(steps):
     """Coarse class of a script (diversity buckets for sampling)."""
     out = []
     for s in steps:
         if s["a"] == "op":
             out.append("%s/%s/%s/%s" % (s["op"], s["net"], s["stop"], s["order"][0] if s["stop"] == 1 else ""))
+        elif s["a"] == "conc":
+            out.append("conc:" + "+".join(sorted("%s/%s" % (o["op"], o["net"]) for o in s["ops"])))
         else:
             out.append(s["a"][0])
     return " ".join(out)
+
+
+def conc_behaviours(cfg, timeout=900):
+    """All interleavings of two overlapping requests (after a sequential set-up) from the descriptive model."""
+    g, beh = generate(cfg, timeout=timeout)
+    seen, out = set(), []
+    for b in beh:
+        st = to_steps(canonical(b))
+        if not any(x["a"] == "conc" for x in st):
+            continue
+        k = json.dumps(st, sort_keys=True)
+        if k not in seen:
+            seen.add(k)
+            out.append(st)
+    return g, out
+
+
+def pick_conc(scripts, n, rnd):
+    """Round robin over (set-up, pair of overlapping operations) buckets; within a bucket random interleavings."""
+    buckets = {}
+    for st in scripts:
+        buckets.setdefault(shape(st), []).append(st)
+    keys = sorted(buckets)
+    rnd.shuffle(keys)
+    for k in keys:
+        rnd.shuffle(buckets[k])
+    chosen = []
+    while len(chosen) < n and keys:
+        for k in list(keys):
+            if buckets[k]:
+                chosen.append(buckets[k].pop())
+                if len(chosen) >= n:
+                    break
+            else:
+                keys.remove(k)
+    return chosen
 
 
 def generate(cfg, timeout=900, workers=8):
@@ -204,7 +292,9 @@ def run(prop, tier, seed, replay=None):
     states = transitions = 0
 
     # 1. the prescriptive design (all deviation constants off) satisfies every C13 invariant -- exhaustive
-    cfgs = ["Subject.presc.quick.cfg"] if quick else ["Subject.presc.quick.cfg", "Subject.presc.thorough.cfg"]
+    cfgs = ["Subject.presc.quick.cfg", "Subject.conc.presc.cfg"]
+    if not quick:
+        cfgs.append("Subject.presc.thorough.cfg")
     for cfg in cfgs:
         m = vlib.tlc("MCSubject", cfg, workers=8, timeout=1500, coverage=(not quick and cfg.endswith("quick.cfg")))
         if m.error:
@@ -221,7 +311,8 @@ def run(prop, tier, seed, replay=None):
         models.append(dict(cfg=cfg, states=m.distinct, transitions=m.generated, depth=m.depth, wall_s=round(m.wall, 1), result="all invariants hold"))
     # 1b. vacuity guard: each deviation of the code, switched on alone, violates an invariant in the model
     expected = {"SweepAbortsOnUnpublishedCreate": "NoLogLeft", "AbandonKeepsDidRows": "RetryCanSucceed",
-                "OpsBuildOnPending": "VersionsConsecutiveAndGrow", "UpdatesDeactivated": "AllOrNothingAfterSweep"}
+                "OpsBuildOnPending": "VersionsConsecutiveAndGrow", "UpdatesDeactivated": "AllOrNothingAfterSweep",
+                "CheckOutsideTx": "SubjectHasOneDidSet"}
     for dev, inv in sorted(expected.items()):
         m = vlib.tlc("MCSubject", "Subject.dev.%s.cfg" % dev, workers=4, timeout=600)
         if m.error:
@@ -247,6 +338,25 @@ def run(prop, tier, seed, replay=None):
         chosen = pick(beh, cap or len(beh), rnd)
         tag = cfg.split(".")[1] + ("T" if "thorough" in cfg else "")
         scripts += [dict(id="%s-%05d" % (tag, i), steps=st) for i, st in enumerate(chosen)]
+    # 2b. concurrent requests: ALL interleavings of the critical sections of two overlapping requests (after a
+    # sequential set-up); thorough adds the interleavings with one injected network failure
+    concs = [("Subject.conc.genall0.cfg", 260 if quick else None)]
+    if not quick:
+        concs.append(("Subject.conc.genall.cfg", 2500))
+    n_conc = 0
+    for cfg, cap in concs:
+        g, cs = conc_behaviours(cfg, timeout=1500)
+        n_beh += len(cs)
+        states += g.distinct
+        transitions += g.generated
+        models.append(dict(cfg=cfg, states=g.distinct, transitions=g.generated, interleavings_of_overlapping_requests=len(cs)))
+        chosen = pick_conc(cs, cap or len(cs), rnd)
+        tag = "conc" + ("F" if cfg.endswith("genall.cfg") else "")
+        have = set(json.dumps(x["steps"], sort_keys=True) for x in scripts)
+        for i, st in enumerate(chosen):
+            if json.dumps(st, sort_keys=True) not in have:
+                scripts.append(dict(id="%s-%05d" % (tag, i), steps=st))
+                n_conc += 1
     by_id = {s["id"]: s for s in scripts}
 
     # 3. replay on the real code
@@ -306,11 +416,12 @@ def run(prop, tier, seed, replay=None):
             samples.append(dict(script=by_id[r["id"]]["steps"], violations=r["violations"][:3]))
     cov = dict(states=states, transitions=transitions, traces_validated_against_impl=validated, traces_accepted=acc,
                traces_rejected=len(rej), samples=samples, models=models, behaviours_available=n_beh,
-               behaviours_replayed_on_real_code=len(results), oracle_evaluations=sum(r.get("checks", 0) for r in results),
+               behaviours_replayed_on_real_code=len(results), concurrent_schedules_replayed=n_conc, oracle_evaluations=sum(r.get("checks", 0) for r in results),
                operation_outcomes=outcomes, stop_between_commits_orders=mid, scripts_with_unrealised_order=miss,
                violations_by_class=counts, action_coverage=cover, exhaustive=(len(scripts) - len(hand_scripts()) == n_beh),
                rule="fault enumeration: TLC exhausts Subject.tla (op sequences x a network failure or a process stop at every step boundary "
-                    "x sweep before/after the minute x both method orders); the prescriptive configuration satisfies all six C13 invariants, "
+                    "x sweep before/after the minute x both method orders; plus every interleaving of the critical sections of two "
+                    "concurrent requests); the prescriptive configuration satisfies all six C13 invariants, "
                     "each named deviation alone violates one; behaviours of the descriptive model are replayed on the real SqlManager + "
                     "didweb/didnuts managers over sqlite/didstore, the statement is evaluated on Resolve/ListDIDs/didstore/did_change_log "
                     "after every successful return, after every complete sweep and on the repeated attempt; every recorded trace is "
@@ -319,6 +430,7 @@ def run(prop, tier, seed, replay=None):
                         ["the network fake answers CreateTransaction synchronously and delivers the signed transaction to the real ambassador before returning",
                          "no SQL failure is injected (Tx1/Tx2/sweep transactions commit); a stop is a panic at a CommitMethod boundary followed by new managers on the same database",
                          "operations and the sweep do not overlap (an operation takes less than the sweep's one minute threshold)",
+                         "concurrent requests are scheduled at the boundaries of SQL transactions / autocommit statements of the SqlManager's database handle and of MethodManager.Commit calls (one request runs between two gates); at most two requests overlap, no stop while two are in flight",
                          "sqlite only; one service slot (type tA, two endpoints), assertion keys only, at most 2 subjects and 3-4 operations per behaviour",
                          "Go map iteration order cannot be forced: scripts that stop between the two commits are repeated (<= 6 attempts) until the scripted order occurs"])
     return rep.finish()
